@@ -38,6 +38,8 @@ fn main() {
         Some("sigv4-header-value") => sigv4::header_value(&args[1..]),
         Some("chunked") => sigv4::chunked(&args[1..]),
         Some("sigv2") => sigv4::v2(&args[1..]),
+        Some("sigv4-multi-header") => sigv4::multi_header(),
+        Some("sigv4-body") => sigv4::body_mode(&args[1..]),
         Some("sigv2-presigned") => sigv4::v2_presigned(&args[1..]),
         Some("post-form") => sigv4::post_form(&args[1..]),
         Some("sigv4-tamper") => sigv4::tamper(),
